@@ -11,89 +11,7 @@
  *                                        values are the NON-NULL values, raw little-endian bytes in hex
  *         | rg                           carquet_writer_new_row_group
  * Values are bit patterns throughout (floats never interpreted). */
-#include "common.h"
-#include <unistd.h>
-#include <carquet/carquet.h>
-
-enum { MAXC = 6, MAXSTEP = 64 };
-typedef struct { char name[16]; int rep, ptype, tlen; } fcol;
-typedef struct {
-    int kind;            /* 0 batch, 1 new row group */
-    int col; int nrows; int has_defs; uint8_t* defs;   /* defs[i] in {0,1} */
-    int nvals; uint8_t** vals; int* vlen;
-} fstep;
-typedef struct { fcol cols[MAXC]; int ncols; int codec; long page; fstep steps[MAXSTEP]; int nsteps; } fcase;
-
-static int vsize(const fcol* c) {
-    switch (c->ptype) { case 0: return 1; case 1: case 4: return 4; case 2: case 5: return 8; case 7: return c->tlen; default: return -1; }
-}
-
-static void free_case(fcase* fc) {
-    for (int i = 0; i < fc->nsteps; i++) {
-        fstep* s = &fc->steps[i];
-        free(s->defs);
-        for (int j = 0; j < s->nvals; j++) free(s->vals[j]);
-        free(s->vals); free(s->vlen);
-    }
-}
-
-static void print_case(hctx* h, const fcase* fc) {
-    fprintf(h->out, "wr cols=");
-    for (int i = 0; i < fc->ncols; i++)
-        fprintf(h->out, "%s%s.%d.%d.%d", i ? "," : "", fc->cols[i].name, fc->cols[i].rep, fc->cols[i].ptype, fc->cols[i].tlen);
-    fprintf(h->out, " codec=%d page=%ld ns=%d", fc->codec, fc->page, fc->nsteps);
-    for (int i = 0; i < fc->nsteps; i++) {
-        const fstep* s = &fc->steps[i];
-        if (s->kind == 1) { fprintf(h->out, " s%d=rg", i); continue; }
-        fprintf(h->out, " s%d=b.%d.", i, s->col);
-        if (!s->has_defs) fprintf(h->out, "N%d", s->nrows);
-        else if (s->nrows == 0) fputc('E', h->out);
-        else for (int r = 0; r < s->nrows; r++) fputc('0' + s->defs[r], h->out);
-        fputc('.', h->out);
-        if (s->nvals == 0) fputc('-', h->out);
-        for (int j = 0; j < s->nvals; j++) { if (j) fputc(':', h->out); h_hex(h->out, s->vals[j], (size_t)s->vlen[j]); }
-    }
-}
-
-/* build the C value array for a batch (dense non-null values) */
-static void* batch_values(const fcol* c, const fstep* s) {
-    int n = s->nvals;
-    if (c->ptype == 6) {
-        carquet_byte_array_t* a = (carquet_byte_array_t*)h_alloc((size_t)(n ? n : 1) * sizeof *a);
-        for (int j = 0; j < n; j++) { a[j].data = s->vals[j]; a[j].length = s->vlen[j]; }
-        return a;
-    }
-    int vs = vsize(c);
-    uint8_t* p = h_alloc((size_t)n * (size_t)vs);
-    for (int j = 0; j < n; j++) memcpy(p + (size_t)j * (size_t)vs, s->vals[j], (size_t)vs);
-    return p;
-}
-
-static int write_file(const fcase* fc, const char* path, int* st, int* nst) {
-    carquet_error_t err; memset(&err, 0, sizeof err);
-    *nst = 0;
-    carquet_schema_t* sc = carquet_schema_create(&err);
-    if (!sc) return -1;
-    for (int i = 0; i < fc->ncols; i++)
-        if (carquet_schema_add_column(sc, fc->cols[i].name, (carquet_physical_type_t)fc->cols[i].ptype, NULL,
-                                      (carquet_field_repetition_t)fc->cols[i].rep, fc->cols[i].tlen) != CARQUET_OK) { carquet_schema_free(sc); return -1; }
-    carquet_writer_options_t wo; carquet_writer_options_init(&wo);
-    wo.compression = (carquet_compression_t)fc->codec; wo.page_size = fc->page;
-    carquet_writer_t* w = carquet_writer_create(path, sc, &wo, &err);
-    if (!w) { carquet_schema_free(sc); return -1; }
-    for (int i = 0; i < fc->nsteps; i++) {
-        const fstep* s = &fc->steps[i];
-        if (s->kind == 1) { st[(*nst)++] = (int)carquet_writer_new_row_group(w); continue; }
-        void* v = batch_values(&fc->cols[s->col], s);
-        int16_t* d = NULL;
-        if (s->has_defs) { d = (int16_t*)h_alloc((size_t)(s->nrows ? s->nrows : 1) * 2); for (int r = 0; r < s->nrows; r++) d[r] = s->defs[r]; }
-        st[(*nst)++] = (int)carquet_writer_write_batch(w, s->col, v, s->nrows, d, NULL);
-        free(v); free(d);
-    }
-    st[(*nst)++] = (int)carquet_writer_close(w);
-    carquet_schema_free(sc);
-    return 0;
-}
+#include "filecase.h"
 
 /* expected table per row group / column, derived from the history */
 typedef struct { int nrows; uint8_t* defs; int nvals; uint8_t** vals; int* vlen; int cap; int vcap; } echunk;
@@ -235,79 +153,6 @@ static void run_case(hctx* h, fcase* fc) {
     unlink(path); unlink(path2);
 }
 
-/* ---- generation ---- */
-static void gen_value(hctx* h, const fcol* c, uint8_t** out, int* len) {
-    static const uint64_t special64[] = { 0, 1, 0xFFFFFFFFFFFFFFFFull, 0x7FFFFFFFFFFFFFFFull, 0x8000000000000000ull,
-        0x7FF8000000000000ull /* NaN */, 0xFFF8000000000001ull, 0x8000000000000000ull /* -0.0 */, 0x7FF0000000000000ull, 0x0000000000000001ull };
-    static const uint32_t special32[] = { 0, 1, 0xFFFFFFFFu, 0x7FFFFFFFu, 0x80000000u, 0x7FC00000u /* NaN */, 0xFFC00001u, 0x80000000u /* -0.0f */, 0x7F800000u, 1u };
-    int n;
-    switch (c->ptype) {
-    case 0: n = 1; break; case 1: case 4: n = 4; break; case 2: case 5: n = 8; break;
-    case 7: n = c->tlen; break;
-    default: n = h_chance(h, 1, 5) ? 0 : (int)h_below(h, h_chance(h, 1, 20) ? 300 : 12); break;
-    }
-    uint8_t* p = h_alloc((size_t)n);
-    if (c->ptype == 0) p[0] = (uint8_t)h_below(h, 2);
-    else if ((c->ptype == 1 || c->ptype == 4) && h_chance(h, 1, 3)) { uint32_t v = special32[h_below(h, 10)]; memcpy(p, &v, 4); }
-    else if ((c->ptype == 2 || c->ptype == 5) && h_chance(h, 1, 3)) { uint64_t v = special64[h_below(h, 10)]; memcpy(p, &v, 8); }
-    else if (h_chance(h, 1, 3)) { uint64_t v = h_below(h, 5); for (int i = 0; i < n; i++) p[i] = i < 8 ? (uint8_t)(v >> (8 * i)) : 0; }
-    else for (int i = 0; i < n; i++) p[i] = (uint8_t)h_next(h);
-    *out = p; *len = n;
-}
-
-static void gen_case(hctx* h, fcase* fc, int small) {
-    static const int codecs[] = { 0, 1, 2, 5, 6, 7 };
-    static const int types[] = { 0, 1, 2, 4, 5, 6, 7 };
-    memset(fc, 0, sizeof *fc);
-    fc->ncols = 1 + (int)h_below(h, small ? 2 : 4);
-    for (int i = 0; i < fc->ncols; i++) {
-        snprintf(fc->cols[i].name, sizeof fc->cols[i].name, "c%d", i);
-        fc->cols[i].rep = (int)h_below(h, 2);
-        fc->cols[i].ptype = types[h_below(h, 7)];
-        if (getenv("VERIF_FILE_NO_BYTE_ARRAY") && fc->cols[i].ptype == 6) fc->cols[i].ptype = 2;  /* development aid only */
-        fc->cols[i].tlen = fc->cols[i].ptype == 7 ? 1 + (int)h_below(h, 9) : 0;
-    }
-    fc->codec = codecs[h_below(h, 6)];
-    switch (h_below(h, 5)) { case 0: fc->page = 1; break; case 1: fc->page = 64 + (long)h_below(h, 64); break; case 2: fc->page = 100 + (long)h_below(h, 400); break; case 3: fc->page = 4096; break; default: fc->page = 1024 * 1024; break; }
-    int nrg = 1 + (int)h_below(h, 3);
-    if (h_chance(h, 1, 25)) nrg = 0;
-    int ns = 0;
-    for (int g = 0; g < nrg; g++) {
-        int rows = small ? (int)h_below(h, 14) : (int)h_below(h, h_chance(h, 1, 4) ? 200 : 40);
-        if (h_chance(h, 1, 15)) rows = 0;
-        /* per column: a null pattern over `rows`, split into batches; batches of different columns interleaved column by column */
-        for (int c = 0; c < fc->ncols; c++) {
-            int pat = (int)h_below(h, 6);
-            int left = rows;
-            int nb = 1 + (int)h_below(h, 4);
-            for (int b = 0; b < nb && ns < MAXSTEP - 4; b++) {
-                int take = (b == nb - 1) ? left : (int)h_below(h, (uint64_t)left + 1);
-                if (take == 0 && !(rows == 0 && b == nb - 1) && !h_chance(h, 1, 6)) continue;
-                fstep* s = &fc->steps[ns++];
-                s->kind = 0; s->col = c; s->nrows = take;
-                s->has_defs = fc->cols[c].rep == 1 ? !h_chance(h, 1, 8) : h_chance(h, 1, 10);
-                s->defs = h_alloc((size_t)take);
-                int nn = 0;
-                for (int r = 0; r < take; r++) {
-                    int d = 1;
-                    if (fc->cols[c].rep == 1 && s->has_defs) {
-                        switch (pat) { case 0: d = 1; break; case 1: d = 0; break; case 2: d = (int)h_below(h, 2); break;
-                                       case 3: d = ((rows - left + r) / 9) % 2; break; case 4: d = h_chance(h, 1, 10) ? 0 : 1; break; default: d = ((rows - left + r) % 3) != 0; break; }
-                    }
-                    s->defs[r] = (uint8_t)d; nn += d;
-                }
-                s->nvals = nn;
-                s->vals = (uint8_t**)h_alloc((size_t)(nn ? nn : 1) * sizeof(uint8_t*));
-                s->vlen = (int*)h_alloc((size_t)(nn ? nn : 1) * sizeof(int));
-                for (int j = 0; j < nn; j++) gen_value(h, &fc->cols[c], &s->vals[j], &s->vlen[j]);
-                left -= take;
-            }
-        }
-        if (g + 1 < nrg || h_chance(h, 1, 5)) { if (ns < MAXSTEP - 1) { fc->steps[ns].kind = 1; ns++; } }
-    }
-    fc->nsteps = ns;
-}
-
 static void gen_file(hctx* h) {
     long n = h->thorough ? 6000 : 350;
     for (long i = 0; i < n; i++) {
@@ -317,44 +162,6 @@ static void gen_file(hctx* h) {
     }
 }
 
-/* ---- replay ---- */
-static int parse_case(const h_line* l, fcase* fc) {
-    memset(fc, 0, sizeof *fc);
-    const char* cs = h_in(l, "cols"); if (!cs) return 1;
-    const char* c = cs;
-    while (*c && fc->ncols < MAXC) {
-        fcol* k = &fc->cols[fc->ncols++];
-        int n = 0; while (*c && *c != '.' && n < 15) k->name[n++] = *c++;
-        k->name[n] = 0; if (*c == '.') c++;
-        k->rep = (int)strtol(c, (char**)&c, 10); if (*c == '.') c++;
-        k->ptype = (int)strtol(c, (char**)&c, 10); if (*c == '.') c++;
-        k->tlen = (int)strtol(c, (char**)&c, 10);
-        if (*c == ',') c++;
-    }
-    fc->codec = (int)h_ll(h_in(l, "codec")); fc->page = (long)h_ll(h_in(l, "page"));
-    int ns = (int)h_ll(h_in(l, "ns")); if (ns > MAXSTEP) return 1;
-    for (int i = 0; i < ns; i++) {
-        char key[16]; snprintf(key, sizeof key, "s%d", i);
-        const char* v = h_in(l, key); if (!v) return 1;
-        fstep* s = &fc->steps[fc->nsteps++];
-        if (!strcmp(v, "rg")) { s->kind = 1; continue; }
-        if (v[0] != 'b' || v[1] != '.') return 1;
-        const char* p = v + 2;
-        s->col = (int)strtol(p, (char**)&p, 10); if (*p == '.') p++;
-        if (*p == 'N') { p++; s->has_defs = 0; s->nrows = (int)strtol(p, (char**)&p, 10); s->defs = h_alloc((size_t)s->nrows); memset(s->defs, 1, (size_t)s->nrows); }
-        else if (*p == 'E') { p++; s->has_defs = 1; s->nrows = 0; s->defs = h_alloc(0); }
-        else { const char* q = p; while (*q == '0' || *q == '1') q++; s->has_defs = 1; s->nrows = (int)(q - p); s->defs = h_alloc((size_t)s->nrows); for (int r = 0; r < s->nrows; r++) s->defs[r] = (uint8_t)(p[r] - '0'); p = q; }
-        if (*p == '.') p++;
-        int nv = 0; if (strcmp(p, "-") != 0) { nv = 1; for (const char* q = p; *q; q++) if (*q == ':') nv++; }
-        s->nvals = nv; s->vals = (uint8_t**)h_alloc((size_t)(nv ? nv : 1) * sizeof(uint8_t*)); s->vlen = (int*)h_alloc((size_t)(nv ? nv : 1) * sizeof(int));
-        for (int j = 0; j < nv; j++) {
-            const char* q = p; while (*q && *q != ':') q++;
-            char* tmp = strndup(p, (size_t)(q - p)); size_t n; s->vals[j] = h_unhex(tmp, &n); s->vlen[j] = (int)n; free(tmp);
-            p = *q ? q + 1 : q;
-        }
-    }
-    return 0;
-}
 static int replay_file(hctx* h, const h_line* l) {
     if (strcmp(l->op, "wr") != 0) return 0;
     fcase fc; if (parse_case(l, &fc)) { fprintf(stderr, "bad wr line\n"); return 1; }
